@@ -12,12 +12,28 @@ VALIDATORS = ("validate_next_tx", "require_no_waiting_txes")
 ESCAPE_HATCH = {"clear_caches": "escape hatch by design: drops the unfinished block; callable at any time"}
 
 
+def ensure_anchor_ids(F):
+    """functions that play an anchor role by what they do, whatever they are called (the validators): never inlined"""
+    if "_anchor_ids_done" in F.__dict__:
+        return
+    F.__dict__["_anchor_ids_done"] = True
+    raw = {f.j["method"]: f for f in F.fns.values()
+           if f.kind == "method" and f.name.startswith("engine::engine::BRC20ProgEngine::") and f.j.get("method")}
+    try:
+        ids = {raw[n].id for n in discovered_validators(F, raw)}
+    except Exception:
+        ids = set()
+    F.__dict__.setdefault("_anchor_ids", set()).update(ids)
+    _VALIDATOR_CACHE.clear()
+
+
 def engine_methods(F):
     """name -> engine method, each with its private non-anchor helpers virtually inlined; helpers that exist only as the
     product of an extract-method refactoring are not entries of their own"""
     from facts import is_private_helper
     cache = F.__dict__.setdefault("_engine_methods", None)
     if cache is None:
+        ensure_anchor_ids(F)
         cache = {f.j["method"]: F.inlined(f) for f in F.fns.values()
                  if f.kind == "method" and f.name.startswith("engine::engine::BRC20ProgEngine::") and f.j.get("method") and not is_private_helper(f)}
         F.__dict__["_engine_methods"] = cache
